@@ -44,11 +44,28 @@ Definition deduplicate (alphabet : Z) (nag : bool) (rs : rows) : rows * list (li
 (* ---- Compress ------------------------------------------------------------------------ *)
 Definition bytes_dec := list_eq_dec Byte.byte_eq_dec.
 
-Definition columns (rs : rows) : list (list byte) := map (column rs) (seq 0 (width rs)).
+(* the columns of the rows, by peeling one residue off every row at a time (linear; equal to
+   [map (column rs) (seq 0 (width rs))], Proofs/DedupProofs.v columns_spec) *)
+Definition hd_gap (s : list byte) : byte := match s with [] => x2d | b :: _ => b end.
+Fixpoint cols_fast (ss : list (list byte)) (w : nat) : list (list byte) :=
+  match w with
+  | O => []
+  | S w' => map hd_gap ss :: cols_fast (map (@tl byte) ss) w'
+  end.
+Definition columns (rs : rows) : list (list byte) := cols_fast (map snd rs) (width rs).
 
 (* the radix tree holds each distinct pattern once with its count; Walk visits
    them in bytewise lexicographic order *)
-Definition patterns (cols : list (list byte)) : list (list byte) := isort (nodup bytes_dec cols).
+(* first occurrences, against the list of the patterns already seen (linear in the number of columns
+   for a bounded number of distinct patterns; the standard [nodup] is quadratic under vm_compute) *)
+Fixpoint distinct_acc (seen l : list (list byte)) : list (list byte) :=
+  match l with
+  | [] => []
+  | x :: t => if existsb (bytes_eqb x) seen then distinct_acc seen t else x :: distinct_acc (x :: seen) t
+  end.
+Definition distinct_cols (l : list (list byte)) : list (list byte) := distinct_acc [] l.
+
+Definition patterns (cols : list (list byte)) : list (list byte) := isort (distinct_cols cols).
 
 Definition compress (rs : rows) : list nat * rows :=
   let cols := columns rs in
